@@ -270,6 +270,21 @@ mk B19; d=$D
 edit "$d/stats/utest.go" 's.replace("p = 1 - dist.CDF(U1-0.5)", "p = 1 - dist.CDF(U1)")'
 expect B19 "$d" C01 tie_failed tie_MannWhitneyUTest
 
+echo "== H11 harmless: KDE.PDF tests the two boundary guards in separate ifs"
+mk H11; d=$D
+edit "$d/stats/kde.go" 's.replace("\tif bc && (x < kde.BoundaryMin || x >= kde.BoundaryMax) {\n\t\treturn 0\n\t}", "\tif bc {\n\t\tif x >= kde.BoundaryMax {\n\t\t\treturn 0\n\t\t}\n\t\tif x < kde.BoundaryMin {\n\t\t\treturn 0\n\t\t}\n\t}")'
+expect H11 "$d" C12 ok
+
+echo "== B20 breaking: the second image series of the bounded density reflects with +w (defect D5 again)"
+mk B20; d=$D
+edit "$d/stats/kde.go" 's.replace("return y(x-(n+1)*d-w) + y(x-(n+1)*d)", "return y(x-(n+1)*d+w) + y(x-(n+1)*d)")'
+expect B20 "$d" C12 tie_failed tie_KDE_PDF
+
+echo "== B21 breaking: CDF with an upper bound only subtracts the reflected tail"
+mk B21; d=$D
+edit "$d/stats/kde.go" 's.replace("return y(x) + (1 - y(2*kde.BoundaryMax-x))", "return y(x) - (1 - y(2*kde.BoundaryMax-x))")'
+expect B21 "$d" C12 tie_failed tie_KDE_CDF
+
 if [ $FULL = 1 ]; then
   echo "== full check on B1: both ties report (correspondence finds a failing input)"
   out=$(VERIF_REPO="$B1" bin/check C13 quick 2>&1); rc=$?
